@@ -911,6 +911,16 @@ def patterns(sc, run):
                         if int(e[0]) != a and ((e[1] in ("replace", "rm") and e[2] == r) or e[1] == "replacep"):
                             pats.add("PS")
                 if t_rm is not None and ev[t_rm][3] == "ok":
+                    # ... or pack_refs removes the loose file while somebody else HOLDS that ref's lock
+                    holder = None
+                    for i in range(t_rm):
+                        e = ev[i]
+                        if e[2] == r and e[1] == "openx" and e[3] == "ok":
+                            holder = int(e[0])
+                        elif e[2] == r and e[1] in ("rmlock", "replace") and holder == int(e[0]):
+                            holder = None
+                    if holder is not None and holder != a:
+                        pats.add("PS")
                     end = t_rep if t_rep is not None else n
                     for i in range(t_rm + 1, end):
                         e = ev[i]
@@ -949,7 +959,8 @@ def patterns(sc, run):
                 # packed between the follow and the lock
                 t_x = next((i for i in mine if ev[i][1] == "openx"), None)
                 reads0 = [i for i in mine if ev[i][1] == "openr" and ev[i][2] == "0"]
-                if t_x is not None and reads0:
+                won = any(h[0] == a and sc["actors"][a][h[1]] == op and h[4] == ["bool", True] for h in run["hist"])
+                if t_x is not None and reads0 and won:
                     for i in range(reads0[0] + 1, t_x):
                         e = ev[i]
                         if int(e[0]) != a and e[1] == "replacep":
@@ -1194,7 +1205,9 @@ def _refs_jobs(ctx, thorough):
                          {"random": ctx.budget(40), "seed": rng.randrange(1 << 30)}))
     # 3b. add_if_new through HEAD while the target is created and packed by someone else
     for sc in ({"init": INITS["absent"], "actors": [[["add", 0, "5"]], [["set", 1, "6"], ["pack"]]]},
-               {"init": INITS["absent"], "actors": [[["add", 0, "5"]], [["set", 1, "6"]], [["pack"]]]}):
+               {"init": INITS["absent"], "actors": [[["add", 0, "5"]], [["set", 1, "6"]], [["pack"]]]},
+               # packed-refs.lock busy (another delete) while remove_if_equals is half way
+               {"init": _init(("2", "1"), (None, "3")), "actors": [[["rm", 1, "2"]], [["del", 2]]]}):
         jobs.append(("triples.symref", "refs", sc, {"dfs": 2 if len(sc["actors"]) == 2 else 1, "max": 800}))
     # 4. triples: random op triples, one pre-emption exhaustively + random schedules beyond
     inits = [i for k, i in INITS.items() if k != "absent-pf"]
